@@ -59,6 +59,57 @@ def tokenise_sexa(text: str, f: int) -> Optional[Dict[str, int]]:
     return {"neg": 1 if sign else 0, "whole": int(whole), "mm": int(mm), "ss": int(ss or 0), "fr": frv}
 
 
+class LiveNumber:
+    """one real driver with a two-element number property of the given format, and a router that records what it publishes"""
+
+    def __init__(self, fmt: str):
+        from indi.device import Driver, properties
+        from indi.routing import Router
+        from indi import message as M
+        self.M = M
+        self.got: List[Any] = []
+        outer = self
+
+        class Sink:
+            def message_from_device(self, message):
+                outer.got.append(message)
+        self.router = Router()
+        self.sink = Sink()
+        self.router.register_client(self.sink)
+        el = properties.Number("a", label="a", default=0.0, format=fmt, min=-1e9, max=1e9, step=0)
+        sib = properties.Number("b", label="b", default=0.0, format=fmt, min=-1e9, max=1e9, step=0)
+        vec = properties.NumberVector("NUM", elements={"a": el, "b": sib}, label="num", perm="rw", timeout=0, state="Idle")
+        cls = type("LiveNum", (Driver,), {"name": "LIVE", "main": properties.Group("MAIN", vectors={"num": vec})})
+        self.drv = cls(router=self.router)
+        self.n = 0
+
+    def text_after(self, how: str, x: float) -> str:
+        vec = self.drv.main.num
+        self.n += 1
+        del self.got[:]
+        if how == "assign":
+            vec.a.value = x
+        elif how == "client":
+            self.router.process_message(self.M.NewNumberVector(device="LIVE", name="NUM", children=[one_parts.OneNumber(name="a", value="%.9f" % x)]), sender=self.sink)
+        else:
+            vec.a.reset_value(x)
+            if how == "reset+state":
+                vec.state_ = ["Ok", "Busy"][self.n % 2]
+            elif how == "reset+sibling":
+                vec.b.value = float(self.n)
+            elif how == "reset+get":
+                self.router.process_message(self.M.GetProperties(version="1.7", device="LIVE", name="NUM"), sender=self.sink)
+            else:
+                vec.enabled = False
+                del self.got[:]
+                vec.enabled = True
+        for m in reversed(self.got):
+            for ch in getattr(m, "children", []) or []:
+                if ch.name == "a" and ch.__class__.__name__ in ("OneNumber", "DefNumber"):
+                    return str(ch.value)
+        raise AssertionError(f"nothing published for element a after {how}")
+
+
 def run(prop: str, tier: str) -> int:
     v = Verdict(prop, tier)
     r = rng("numbers")
@@ -114,13 +165,13 @@ def run(prop: str, tier: str) -> int:
     obs: List[dict] = []
     inputs: Dict[int, Any] = {}
 
-    def add_m(f: int, width: str, x: float):
+    def add_m(f: int, width: str, x: float, via=None):
         fmt = f"%{width}.{f}m"
         v.evaluations += 1
-        v.count_action(f"render:.{f}m")
+        v.count_action(f"render:.{f}m" + (":element" if via else ""))
         oid = len(obs) + 1
         try:
-            text = V.num_to_str(x, fmt)
+            text = via(x, fmt) if via else V.num_to_str(x, fmt)
         except Exception as e:
             v.violation(f"num_to_str({x!r}, {fmt!r}) raised {type(e).__name__}: {e}", {"kind": "render", "value": x, "fmt": fmt})
             return
@@ -161,12 +212,12 @@ def run(prop: str, tier: str) -> int:
             add_m(f, "", r.uniform(-1e9, 1e9))
             add_m(f, "", float(r.randint(-10**9, 10**9)))
 
-    def add_p(fmt: str, prec: int, x):
+    def add_p(fmt: str, prec: int, x, via=None):
         v.evaluations += 1
-        v.count_action("render:printf")
+        v.count_action("render:printf" + (":element" if via else ""))
         oid = len(obs) + 1
         try:
-            text = V.num_to_str(x, fmt)
+            text = via(x, fmt) if via else V.num_to_str(x, fmt)
             m = _DEC.match(text)
         except Exception as e:
             v.violation(f"num_to_str({x!r}, {fmt!r}) raised {type(e).__name__}: {e}", {"kind": "render", "value": x, "fmt": fmt})
@@ -208,6 +259,27 @@ def run(prop: str, tier: str) -> int:
     v.sample({"observation": obs[len(obs) // 3], "input": inputs[obs[len(obs) // 3]["id"]]})
     v.phase("render_real")
 
+    # ---- the same judgement for what a live Number element puts on the wire (instance/elements.py): the element takes a
+    # history of values - by assignment, by reset_value (a driver refreshing it silently) and by a client write - and after each
+    # of them the text it publishes must denote the value it holds NOW
+    n_el = 60 if tier == "quick" else 600
+    for fmt, prec in [("%.3m", None), ("%10.6m", None), ("%.9m", None), ("%.2f", 2), ("%8.3f", 3), ("%d", 0), ("%f", 6)]:
+        live = LiveNumber(fmt)
+        f = int(fmt[-2]) if fmt.endswith("m") else None
+        width = fmt[1:fmt.index(".")] if f else ""
+        for i in range(n_el):
+            x = r.choice([r.uniform(-360, 360), r.uniform(-1, 1), float(r.randint(-500, 500)), r.uniform(-900, 900), 59.9999, -0.0004])
+            how = ["assign", "reset+state", "reset+sibling", "reset+get", "reset+def", "client"][i % 6 if r.random() < 0.7 else r.randrange(6)]
+            via = (lambda x, fmt, how=how: live.text_after(how, x))
+            n0 = len(obs)
+            if f:
+                add_m(f, width, x, via=via)
+            else:
+                add_p(fmt, prec, x, via=via)
+            if len(obs) > n0:
+                inputs[obs[-1]["id"]]["element_history_step"] = how
+    v.phase("render_element")
+
     # ---- TLC judges
     wd = tlc.scratch_dir("numj-")
     try:
@@ -241,7 +313,9 @@ def run(prop: str, tier: str) -> int:
             continue
         seen.add(key)
         if len(v.violations) < 60:
-            v.violation(f"num_to_str({inputs[i]['value']!r}, {inputs[i]['fmt']!r}) = {inputs[i]['text']!r} (parses back to "
+            who = (f"a live Number element holding {inputs[i]['value']!r} (format {inputs[i]['fmt']!r}) published, after '{inputs[i]['element_history_step']}',"
+                   if "element_history_step" in inputs[i] else f"num_to_str({inputs[i]['value']!r}, {inputs[i]['fmt']!r}) =")
+            v.violation(f"{who} {inputs[i]['text']!r} (parses back to "
                         f"{inputs[i]['parse_back']!r}): not within one unit of the value / fields out of range",
                         {"kind": "render", **inputs[i]})
     v.phase("tlc_judge")
